@@ -67,6 +67,7 @@ type VC struct {
 	topParams  map[string]TV
 	globals    Term
 	freshRefs  map[string]bool
+	lockReleased bool // a monitor lock was released earlier in the symbolic run (a later acquire starts a new critical section)
 }
 
 type fnSummary struct {
